@@ -13,6 +13,7 @@ from ..core import VERIF_ROOT
 from ..runner import PY, shard_env
 
 LEVEL = "exploration"
+TECHNIQUE = 'runtime monitoring: field-wise round-trip monitor (also through JSON text), hash/file-name tables recomputed in fresh processes across PYTHONHASHSEED values, one-field-different pairs, in-place updates vs fresh configs'
 RULE = ("MazeDatasetConfig over the cross product generator x kwargs (JSON-native values) x endpoint options x filter lists x names "
         "(spaces, slashes, unicode) x grid sizes x n_mazes {1,999,1000,10^6,...} x seeds: load(serialize()) and "
         "load(json.loads(json.dumps(serialize()))) compared field by field (same generator function object, kwargs, endpoint "
